@@ -20,6 +20,8 @@ import (
 	"bytes"
 	"encoding/hex"
 	"fmt"
+	hook "github.com/emmansun/gmsm/verifhook"
+	"io"
 	"math/big"
 	"strings"
 
@@ -323,13 +325,26 @@ type outcome struct {
 	match     func(k *big.Int) string // "" iff the output is the one the algorithm produces from scalar k
 	reject    func(k *big.Int) bool   // the algorithm itself discards scalar k and draws again (r=0, r+k=n, s=0, t=0, ...)
 	extra     int                     // documented bytes read after the scalar (IV of the SM9 block modes)
+	full      func(k *big.Int) string // optional: "" iff the complete output is the one the standard defines for nonce k
 }
 
 // call is one prepared invocation (inputs fixed); run may be executed repeatedly on
 // fresh state with different random sources.
 type call struct {
 	inputs string
-	run    func(rnd *mon.Script) outcome
+	run    func(rnd io.Reader) outcome
+}
+
+// reader is what the library is handed: the mon.Script, with its side channel for
+// 1-byte reads open only until the first main-stream read. randutil.MaybeReadByte
+// always comes first in an operation; any later 1-byte read is the continuation of an
+// io.ReadFull after a 31-byte short read and must be served (or refused) by the main
+// stream like every other read.
+type reader struct{ s *mon.Script }
+
+func (r reader) Read(p []byte) (int, error) {
+	r.s.ProbeSide = r.s.Calls == 0
+	return r.s.Read(p)
 }
 
 type op struct {
@@ -368,10 +383,21 @@ func newEnv(x *mon.Ctx) *env {
 
 func allOps() []*op {
 	var out []*op
-	out = append(out, sm2Ops()...)
-	out = append(out, sm9Ops()...)
+	for _, o := range append(sm2Ops(), sm9Ops()...) {
+		if o.name == "sm2.sign.nistp256" && pureGo() {
+			continue
+		}
+		out = append(out, o)
+	}
 	return out
 }
+
+// pureGo reports a build with the purego tag. There the Go 1.23 standard library itself
+// panics in crypto/elliptic.p256Curve.Inverse ("nistec rejected normalized scalar":
+// nistec.P256OrdInverse is a stub under purego while elliptic still routes to it), which
+// sm2.signLegacy calls for NIST P-256 keys. That is a toolchain matter outside the
+// property, so SM2 signing over NIST P-256 is exercised in assembly builds only.
+func pureGo() bool { return hook.Dispatch()["sm2ec.generic"] }
 
 // ---------------------------------------------------------------------------
 // model
